@@ -59,45 +59,81 @@ func choose(r *rand.Rand, pAbsent, pValid int, validSrc func() Src, bad []Src) S
 	return bad[r.Intn(len(bad))]
 }
 
+// absentOrEmpty: an unset source is either not in the environment or set to the empty string
+func absentOrEmpty(r *rand.Rand) Src {
+	if r.Intn(3) == 0 {
+		return Src{K: "empty"}
+	}
+	return absent
+}
+
 func numEnvSrc(r *rand.Rand, id string) Src {
-	return choose(r, 30, 30, func() Src { return valid(id) }, []Src{
-		{K: "nonnum"}, {K: "neg"}, {K: "zero"}, {K: "float"}, {K: "overflow"}, {K: "padded", V: id}})
+	s := choose(r, 30, 30, func() Src {
+		if r.Intn(4) == 0 {
+			return Src{K: "vdef"} // valid and equal to the built-in default
+		}
+		return valid(id)
+	}, []Src{{K: "nonnum"}, {K: "neg"}, {K: "zero"}, {K: "float"}, {K: "overflow"}, {K: "padded", V: id}})
+	if s.K == "absent" {
+		return absentOrEmpty(r)
+	}
+	return s
 }
 
 func numOptSrc(r *rand.Rand) Src {
-	return choose(r, 45, 35, func() Src { return valid("O") }, []Src{{K: "zero"}, {K: "neg"}})
+	return choose(r, 45, 35, func() Src {
+		if r.Intn(4) == 0 {
+			return Src{K: "vdef"}
+		}
+		return valid("O")
+	}, []Src{{K: "zero"}, {K: "neg"}})
 }
 
 var envPaths = []string{"", "/", "/s", "/s/", "/col/lect", "/x/y/z/", "/v1/traces", "/otlp-http"}
 
 func urlEnvSrc(r *rand.Rand, http bool) Src {
-	return choose(r, 35, 40, func() Src {
+	s := choose(r, 35, 40, func() Src {
+		if r.Intn(8) == 0 {
+			return Src{K: "defurl"} // the default endpoint, spelled out
+		}
 		if !http {
 			return Src{K: "url", V: []string{"", "/"}[r.Intn(2)]}
 		}
 		return Src{K: "url", V: envPaths[r.Intn(len(envPaths))]}
 	}, []Src{{K: "unparsable"}, {K: "noscheme"}, {K: "pathonly", V: "/p"}})
+	if s.K == "absent" {
+		return absentOrEmpty(r)
+	}
+	return s
 }
 
 func urlOptSrc(r *rand.Rand, http bool) Src {
 	if !http {
 		return choose(r, 40, 45, func() Src {
-			return []Src{{K: "host"}, {K: "url", V: ""}}[r.Intn(2)]
+			return []Src{{K: "host"}, {K: "url", V: ""}, {K: "defhost"}}[r.Intn(3)]
 		}, []Src{{K: "badurl"}})
 	}
 	return choose(r, 40, 45, func() Src {
 		return []Src{{K: "host"}, {K: "path", V: "/o"}, {K: "path", V: "/o/"}, {K: "path", V: "/deep/er/o"}, {K: "hostpath", V: "/o"},
-			{K: "url", V: ""}, {K: "url", V: "/"}, {K: "url", V: "/o"}, {K: "url", V: "/o/"}}[r.Intn(9)]
+			{K: "url", V: ""}, {K: "url", V: "/"}, {K: "url", V: "/o"}, {K: "url", V: "/o/"}, {K: "defhost"}}[r.Intn(10)]
 	}, []Src{{K: "badurl"}})
 }
 
 func hdrEnvSrc(r *rand.Rand, id string) Src {
-	return choose(r, 35, 35, func() Src { return valid(id) }, []Src{{K: "garbage"}, {K: "partial", V: id}, {K: "badkey"}})
+	s := choose(r, 35, 35, func() Src { return valid(id) }, []Src{{K: "garbage"}, {K: "partial", V: id}, {K: "badkey"}})
+	if s.K == "absent" {
+		return absentOrEmpty(r)
+	}
+	return s
 }
 
 func cmpEnvSrc(r *rand.Rand) Src {
-	return choose(r, 35, 35, func() Src { return valid([]string{"gzip", "none"}[r.Intn(2)]) },
+	s := choose(r, 35, 35, func() Src { return valid([]string{"gzip", "none"}[r.Intn(2)]) },
 		[]Src{{K: "unknown"}, {K: "case", V: "gzip"}})
+	if s.K == "absent" {
+		return absentOrEmpty(r)
+	}
+	return s
 }
 
 // ---------------------------------------------------------------- exporter scenarios
@@ -203,10 +239,10 @@ type samplerPlan struct {
 
 func planSampler(r *rand.Rand, conc *Conc) samplerPlan {
 	names := []string{"always_on", "always_off", "traceidratio", "parentbased_always_on", "parentbased_always_off", "parentbased_traceidratio"}
-	opt := choose(r, 60, 25, func() Src { return valid("traceidratio:R50") }, []Src{{K: "nil"}})
+	opt := choose(r, 60, 25, func() Src { return valid([]string{"traceidratio:R50", "parentbased_always_on"}[r.Intn(2)]) }, []Src{{K: "nil"}})
 	name := choose(r, 20, 50, func() Src { return valid(names[r.Intn(len(names))]) },
 		[]Src{{K: "unknown"}, {K: "empty"}, {K: "case", V: "always_off"}, {K: "case", V: "traceidratio"}})
-	arg := choose(r, 35, 35, func() Src { return valid([]string{"R25", "R0"}[r.Intn(2)]) },
+	arg := choose(r, 35, 35, func() Src { return valid([]string{"R25", "R0", "R100"}[r.Intn(3)]) },
 		[]Src{{K: "nonnum"}, {K: "neg"}, {K: "gt1"}, {K: "empty"}})
 	sp := samplerPlan{srcs: []Src{opt, name, arg}}
 	if v, ok := samplerNameEnv(name, conc); ok {
@@ -249,9 +285,9 @@ func runTracer(sp *samplerPlan, lims []limPlan, conc *Conc, structKind string) (
 		if sp != nil {
 			switch sp.srcs[0].K {
 			case "valid":
-				_, ratio, _ := strings.Cut(sp.srcs[0].V, ":")
-				opts = append(opts, sdktrace.WithSampler(sdktrace.TraceIDRatioBased(ratioVal[ratio])))
-				optText = append(optText, "WithSampler(TraceIDRatioBased("+fmt.Sprint(ratioVal[ratio])+"))")
+				smp, text := samplerOption(sp.srcs[0].V)
+				opts = append(opts, sdktrace.WithSampler(smp))
+				optText = append(optText, text)
 			case "nil":
 				opts = append(opts, sdktrace.WithSampler(nil))
 				optText = append(optText, "WithSampler(nil)")
